@@ -454,6 +454,7 @@ impl Device {
         .await?;
         let key: AccessKey = password.clone().into();
         account.sign_in(&key).await?;
+        let _ = account.initialize_search_index().await;
         let account_id = *account.account_id();
         let mut d = Device {
             name: name.to_string(),
@@ -499,6 +500,8 @@ impl Device {
         let mut account = LocalAccount::new_unauthenticated(self.account_id, target).await?;
         let key: AccessKey = self.password.clone().into();
         account.sign_in(&key).await?;
+        // applications build the search index right after signing in
+        let _ = account.initialize_search_index().await;
         self.account = Some(std::sync::Arc::new(tokio::sync::Mutex::new(account)));
         Ok(())
     }
@@ -923,7 +926,10 @@ impl Device {
                     return format!("err:sign_out:{}", short_err(&e.to_string()));
                 }
                 match a.sign_in(&key).await {
-                    Ok(_) => "ok".into(),
+                    Ok(_) => {
+                        let _ = a.initialize_search_index().await;
+                        "ok".into()
+                    }
                     Err(e) => format!("err:sign_in:{}", short_err(&e.to_string())),
                 }
             }
